@@ -316,6 +316,15 @@ func genC02(r *vh.Rand, idx int) c02Spec {
 			c02Payload{GapMs: 60, Msgs: []c02Msg{ping(a, "call-ok")}},
 			c02Payload{GapMs: 1, Msgs: []c02Msg{ping(b, "call-ok")}})
 	}
+	// a call that is cancelled while it still waits in the queue behind a slow notification handler: it is
+	// answered exactly once all the same (with a result or an error)
+	if r.Chance(1, 6) {
+		id := g.freshID()
+		s.Payloads = append(s.Payloads,
+			c02Payload{GapMs: 30, Msgs: []c02Msg{{Raw: `{"jsonrpc":"2.0","method":"notifications/progress","params":{"progressToken":"slow","progress":99}}`, Class: "notif"}}},
+			c02Payload{GapMs: 0, Msgs: []c02Msg{{Raw: fmt.Sprintf(`{"jsonrpc":"2.0","id":%s,"method":%s}`, id, r.Choose(`"ping"`, `"tools/list"`, `"tools/call","params":{"name":"echo","arguments":{"nonce":4242,"delay":1}}`)), ID: id, Class: "cancelled-while-queued", Want: c02AnyOutcome}}},
+			c02Payload{GapMs: 0, Msgs: []c02Msg{{Raw: fmt.Sprintf(`{"jsonrpc":"2.0","method":"notifications/cancelled","params":{"requestId":%s,"reason":"gave up"}}`, id), Class: "notif"}}})
+	}
 	// requests that arrive before the handshake: a broken initialize must be rejected with the standard
 	// code and must not spoil the real one that follows
 	if s.Transport == "stdio" && r.Chance(1, 5) {
@@ -369,7 +378,14 @@ func TestVerifC02(t *testing.T) {
 }
 
 func c02Server() *mcp.Server {
-	s := mcp.NewServer(&mcp.Implementation{Name: "verif", Version: "1"}, nil)
+	s := mcp.NewServer(&mcp.Implementation{Name: "verif", Version: "1"}, &mcp.ServerOptions{
+		// progress value 99 marks a notification whose (synchronous) handler takes a while: later messages queue behind it
+		ProgressNotificationHandler: func(_ context.Context, req *mcp.ProgressNotificationServerRequest) {
+			if req.Params != nil && req.Params.Progress == 99 {
+				time.Sleep(ms(5))
+			}
+		},
+	})
 	s.AddTool(&mcp.Tool{Name: "echo", InputSchema: json.RawMessage(`{"type":"object"}`)}, func(ctx context.Context, req *mcp.CallToolRequest) (*mcp.CallToolResult, error) {
 		var a struct {
 			Nonce int `json:"nonce"`
